@@ -43,8 +43,14 @@ def one(name):
             return name, prop, None, f"patch does not apply: {o[:200]}"
         man = json.load(open("/verif/MANIFEST.json"))
         det = {}
+        sys.path.insert(0, os.path.dirname(os.path.abspath(__file__)))
+        from _affected import affected
+
+        can_see = affected(f"{dest}/patch.diff")
         for c in man["checks"]:
             pid = c["property_id"]
+            if can_see is not None and pid not in can_see:
+                continue  # consults none of the touched files: same verdict as on the unchanged tree
             rcc, oc = sh(f"{PY} -m xoverif.check {pid} --no-evidence --root {d}", cwd="/verif")
             fails = [l for l in oc.splitlines() if l.startswith("FAIL")]
             errs = [l for l in oc.splitlines() if l.startswith("ANALYSIS-ERROR")]
